@@ -115,12 +115,12 @@ Proof. split; reflexivity. Qed.
    and the indentation only — the model has no other input (no spans, no source text), and the
    FORMAT correspondence shows the implementation's text is reproduced from exactly these. *)
 Theorem C08_format_depends_on_ast_only :
-  forall e2s np rk w e1 e2 i1 i2, e1 = e2 -> i1 = i2 ->
-  render (fmtd e2s np rk w e1 i1) = render (fmtd e2s np rk w e2 i2).
+  forall O w e1 e2 i1 i2, e1 = e2 -> i1 = i2 ->
+  render (fmtd O w e1 i1) = render (fmtd O w e2 i2).
 Proof. intros; subst; reflexivity. Qed.
 Check C08_format_depends_on_ast_only :
-  forall e2s np rk w e1 e2 i1 i2, e1 = e2 -> i1 = i2 ->
-  render (fmtd e2s np rk w e1 i1) = render (fmtd e2s np rk w e2 i2).
+  forall O w e1 e2 i1 i2, e1 = e2 -> i1 = i2 ->
+  render (fmtd O w e1 i1) = render (fmtd O w e2 i2).
 Print Assumptions C08_format_depends_on_ast_only.
 
 (* ---- the second pass of the drivers.  If the first output re-parses to statements with the
@@ -129,23 +129,23 @@ Print Assumptions C08_format_depends_on_ast_only.
    (relayout; validated against pest's spans by the FORMAT correspondence), the library driver
    prints the same text again; the CLI driver does not look at positions at all. *)
 Theorem C08_lib_driver_second_pass :
-  forall e2s np rk mw p q,
+  forall O mw p q,
   map stmt_content q = map stmt_content p ->
-  map stmt_pos q = map triple_pos (relayout 1 (map (lib_stmt e2s np rk mw) p)) ->
-  format_lib e2s np rk mw q = format_lib e2s np rk mw p.
+  map stmt_pos q = map triple_pos (relayout 1 (map_first (lib_stmt O mw) p)) ->
+  format_lib O mw q = format_lib O mw p.
 Proof. exact lib_driver_second_pass. Qed.
 Check C08_lib_driver_second_pass :
-  forall e2s np rk mw p q,
+  forall O mw p q,
   map stmt_content q = map stmt_content p ->
-  map stmt_pos q = map triple_pos (relayout 1 (map (lib_stmt e2s np rk mw) p)) ->
-  format_lib e2s np rk mw q = format_lib e2s np rk mw p.
+  map stmt_pos q = map triple_pos (relayout 1 (map_first (lib_stmt O mw) p)) ->
+  format_lib O mw q = format_lib O mw p.
 Print Assumptions C08_lib_driver_second_pass.
 
 Theorem C08_cli_driver_second_pass :
-  forall e2s np rk p q,
-  map stmt_content q = map stmt_content p -> format_cli e2s np rk q = format_cli e2s np rk p.
+  forall O p q,
+  map stmt_content q = map stmt_content p -> format_cli O q = format_cli O p.
 Proof. exact cli_driver_second_pass. Qed.
 Check C08_cli_driver_second_pass :
-  forall e2s np rk p q,
-  map stmt_content q = map stmt_content p -> format_cli e2s np rk q = format_cli e2s np rk p.
+  forall O p q,
+  map stmt_content q = map stmt_content p -> format_cli O q = format_cli O p.
 Print Assumptions C08_cli_driver_second_pass.
